@@ -39,13 +39,15 @@ def exprIsArith : DL.Expr → Bool
 def sipWithArith (p : Program) : Bool :=
   p.any (fun r => r.posAtoms.length ≥ 2 && !selfRec p r.hrel && r.cmps.any (fun c => exprIsArith c.2.1 || exprIsArith c.2.2))
 
-def classify (p : Program) : String :=
-  if (clausesOf p (answeredRel p)).length ≥ 2 || queryRel p != answeredRel p then "last_head_multi_clause"
+/-- `jpAlone` = flipping only the join-planning switch already changes the answer (read off the deviating masks) -/
+def classify (p : Program) (jpAlone : Bool) : String :=
+  if jpAlone && unionWithJoin p then "union_with_join_heads"
+  else if (clausesOf p (answeredRel p)).length ≥ 2 || queryRel p != answeredRel p then "last_head_multi_clause"
   else if sipWithArith p then "sip_rule_with_arithmetic_comparison"
   else if hasRepeatedVarAtom p then "repeated_variable_in_atom"
   else if p.any (fun r => r.hasAgg) && sipDropsColumns p then "sip_drops_columns_under_aggregate"
   else if sipDropsColumns p then "sip_non_variable_column"
-  else if unionWithJoin p then "multi_clause_join_head"
+  else if unionWithJoin p then "union_with_join_heads"
   else "unclassified"
 
 /-- which switches, flipped alone from all-off, change the answer (from the masks that differ) -/
@@ -59,15 +61,12 @@ def cfgsH : Handler := fun args impl =>
   match parseItemsOnly args with
   | some (edb, p) =>
     let parts := impl.splitOn "#"
-    -- ILV.Model.Engine (C01) still mirrors the push-down defect repaired by fixes/C05-pushdown_right_past_join_key:
-    -- on programs of that class the baseline is read back until the engine model is updated
-    let base := if (C01.nonRecRules p).any C01.pushdownShift then parts.headD ""
-                else (Engine.run {} C01.sipHashDummy (fun _ ts => ts) C01.fuelDefault p edb).toWire
+    let base := (Engine.run {} C01.sipHashDummy (fun _ ts => ts) C01.fuelDefault p edb).toWire
     let rest := parts.drop 1
     -- the switch-controlled passes have no program-level Lean model: their part of the output is read back
     let m := if rest.isEmpty then base else base ++ "#" ++ joinWith "#" rest
     let nt := !(base.startsWith "err") && base != "{}" && p.any (fun r => r.body.length ≥ 2)
-    { model := m, spec := if rest.isEmpty then specOk else specFail (classify p) (detail rest), nt := nt }
+    { model := m, spec := if rest.isEmpty then specOk else specFail (classify p ((rest.flatMap (fun g => match g.splitOn "@" with | [_, m] => m.splitOn "+" | _ => [])).contains "10000")) (detail rest), nt := nt }
   | none => badReq
 
 def semW : Semiring → String
